@@ -75,13 +75,14 @@ def case_flags(fam, rep):
             nodal, vq = fe_function(rng, reg, mesh, fam, shape)
             percell = nodal[mesh.cells]  # (c, a, *shape)
             linear = fam in ("quad", "hexahedron")
+            mini = fam.endswith("MINI")  # (their default rules are too low for project() without mean=True: documented, loud)
             # --- average=False: values per cell corner on the disconnected mesh (no averaging across cells)
             if linear:
                 got = fem.tools.extrapolate(vq, reg, average=False).reshape(nc, npc, *shape)
                 run.compare(mon, "tool=extrapolate template=%s clause=average=False" % fam, maxabs(got - percell) / maxabs(nodal), 1e-11,
                             "extrapolate(average=False) does not return the field's values at the corners of every cell", unit="flags:extrapolate:average=False",
                             config=(fam, "extrapolate", "average=False", shape))
-            if fam not in ("triangle", "tetra"):
+            if fam not in ("triangle", "tetra") and not mini:
                 got = fem.project(vq, reg, average=False).reshape(nc, npc, *shape)
                 run.compare(mon, "tool=project template=%s clause=average=False" % fam, maxabs(got - percell) / maxabs(nodal), 1e-10,
                             "project(average=False) does not return the field's values at the points of every cell", unit="flags:project:average=False",
@@ -112,7 +113,7 @@ def case_flags(fam, rep):
                             "%s(mean=True, average=False) is not the weighted cell mean at every point of the cell" % name,
                             unit="flags:%s:mean=True,average=False" % name, config=(fam, name, "mean+noaverage", shape))
             # --- an explicit dV: the projection that preserves the integral with that measure
-            if fam not in ("triangle", "tetra"):
+            if fam not in ("triangle", "tetra") and not mini:
                 dVw = reg.dV * rng.uniform(0.5, 2, reg.dV.shape)
                 pr = fem.project(data, reg, dV=dVw)
                 size = int(np.prod(shape)) if shape else 1
@@ -461,7 +462,7 @@ def cases(tier, seed):
             out.append(("views:%s:%s:%d" % (kind, fam, rep), case_stress_and_views(kind, fam, rep)))
     for rep in range(reps):
         out.append(("force:%d" % rep, case_force_moment(rep)))
-    for fam in ("quad", "hexahedron", "quad9", "hexahedron20", "triangle", "tetra"):
+    for fam in ("quad", "hexahedron", "quad9", "hexahedron20", "triangle", "tetra", "triangleMINI", "tetraMINI"):
         for rep in range(reps):
             out.append(("flags:%s:%d" % (fam, rep), case_flags(fam, rep)))
     return out
